@@ -164,31 +164,38 @@ def run(ctx, ck):
     check_weights(ctx, ck)
 
     # ---------------------------------------------------------------- D3
-    f = m.func('mininec.Geobj.compute_connections')
-    fl = ctx.flow(f)
-    inv = [s for s in walk_no_nested(f.node) if isinstance(s, ast.Assign) and
-           isinstance(s.targets[0], ast.Name) and norm(s.value) == 'np.array([1, 1, -1])']
-    ck.ob('R-PAIR.grounded-pulse', f.qual + '|invz', len(inv) == 1, f.loc(inv[0] if inv else None),
-          'z-mirror vector [1, 1, -1]')
-    iv = inv[0].targets[0].id if inv else 'invz'
+    # on the creation model (symbolic paths of compute_connections, helpers and generators looked
+    # through): the pulse of a grounded end K is created under is_ground[K], its far point is built
+    # with the z-mirror vector and both halves lie on the same segment
+    from ._creation import creation_model, creations_of
+    f, cpaths = creation_model(ctx)
+    seen = {0: [], 1: []}
+    for p_ in cpaths:
+        for c in creations_of(p_):
+            g_ = c.kws.get('gnd')
+            if g_ is None:
+                continue
+            K = g_.value if isinstance(g_, ast.Constant) and g_.value in (0, 1) else None
+            if K is None:
+                seen[0].append((False, c, 'gnd = %s is not a literal end number' % norm(g_)))
+                continue
+            guard = [b_ for t_, b_ in p_.conds if t_ == 'self.is_ground[%d]' % K and isinstance(b_, bool)]
+            far = c.call.args[2] if K == 0 else c.call.args[3]
+            ftxt = norm(far)
+            mirrored = 'np.array([1, 1, -1])' in ftxt
+            same = c.args[4] == c.args[5]
+            ok_ = bool(guard) and guard[-1] is True and mirrored and same and len(c.call.args) >= 6
+            seen[K].append((ok_, c, 'Pulse(gnd=%d) under is_ground[%d]=%s; mirrored end %s; halves on %s / %s'
+                            % (K, K, guard[-1] if guard else 'untested', ftxt[:70], c.args[4], c.args[5])))
+    mir = any('np.array([1, 1, -1])' in w_ for K in (0, 1) for ok_, c, w_ in seen[K])
+    ck.ob('R-PAIR.grounded-pulse', f.qual + '|invz', mir, f.loc(), 'z-mirror vector [1, 1, -1]')
     for K in (0, 1):
-        cs = [s for s in walk_no_nested(f.node) if isinstance(s, ast.Assign) and isinstance(s.value, ast.Call)
-              and isinstance(s.value.func, ast.Name) and s.value.func.id == 'Pulse' and
-              any(k.arg == 'gnd' and isinstance(k.value, ast.Constant) and k.value.value == K
-                  for k in s.value.keywords)]
-        ok = len(cs) == 1
-        why = '%d Pulse(gnd=%d) creations' % (len(cs), K)
-        if ok:
-            g = [t for t, b in if_chain_preds(fl.cfg, fl.node_id_of(cs[0])) if b]
-            args = cs[0].value.args
-            ok = 'self.is_ground[%d]' % K in g
-            # the far end of the grounded half is built with the mirror vector; both segments equal
-            far = args[2] if K == 0 else args[3]
-            fe = fl.inline(far, fl.node_id_of(cs[0]), depth=3)
-            ok = ok and (any(isinstance(x, ast.Name) and x.id == iv for x in ast.walk(fe)) or
-                         'np.array([1, 1, -1])' in norm(fe)) and norm(args[4]) == norm(args[5])
-            why = 'Pulse(gnd=%d) under %s; mirrored end %s; both halves on %s' % (K, g, norm(fe)[:50], norm(args[4]))
-        ck.ob('R-PAIR.grounded-pulse', '%s|end%d' % (f.qual, K + 1), ok, f.loc(cs[0] if cs else None), why)
+        sites = {id(c.stmt) for ok_, c, w_ in seen[K]}
+        bad = [x for x in seen[K] if not x[0]]
+        ok = len(sites) == 1 and not bad
+        why = (bad[0][2] if bad else ('%d Pulse(gnd=%d) creations' % (len(sites), K) if len(sites) != 1 else seen[K][0][2]))
+        ck.ob('R-PAIR.grounded-pulse', '%s|end%d' % (f.qual, K + 1), ok,
+              f.loc(seen[K][0][1].stmt) if seen[K] else f.loc(), why)
     pi = m.func('pulse.Pulse.__init__')
     txt = [norm(s) for s in walk_no_nested(pi.node) if isinstance(s, ast.stmt)]
     ok = 'self.gnd_sgn[self.ground] = -1' in txt and 'self.sign = self.sign * self.gnd_sgn' in txt and \
